@@ -94,7 +94,7 @@ func mutate(t *rapid.T, c *proxyv1alpha1.UpstreamCluster) []string {
 	n := rapid.IntRange(0, 4).Draw(t, "nedits")
 	for i := 0; i < n; i++ {
 		l := fmt.Sprintf("edit[%d]", i)
-		k := rapid.IntRange(0, 29).Draw(t, l+".kind")
+		k := rapid.IntRange(0, 30).Draw(t, l+".kind")
 		switch k {
 		case 22, 23, 24:
 			// plausible schema: a valid draw, possibly with one number nudged
@@ -127,14 +127,16 @@ func mutate(t *rapid.T, c *proxyv1alpha1.UpstreamCluster) []string {
 				c.Spec.DispatchPolicies[len(c.Spec.DispatchPolicies)-1].FlowControlSchemaName = name
 			}
 			edits = append(edits, "plausible schema "+name)
-		case 25, 26:
-			// https with a plausible client configuration
-			for j := range c.Spec.Servers {
-				c.Spec.Servers[j].Endpoint = strings.Replace(c.Spec.Servers[j].Endpoint, "http://", "https://", 1)
-			}
-			for j := range c.Spec.DispatchPolicies {
-				for x := range c.Spec.DispatchPolicies[j].UpstreamSubset {
-					c.Spec.DispatchPolicies[j].UpstreamSubset[x] = strings.Replace(c.Spec.DispatchPolicies[j].UpstreamSubset[x], "http://", "https://", 1)
+		case 25, 26, 30:
+			// a plausible client configuration, for https - or left over on an upstream that talks plain http (k == 30)
+			if k != 30 {
+				for j := range c.Spec.Servers {
+					c.Spec.Servers[j].Endpoint = strings.Replace(c.Spec.Servers[j].Endpoint, "http://", "https://", 1)
+				}
+				for j := range c.Spec.DispatchPolicies {
+					for x := range c.Spec.DispatchPolicies[j].UpstreamSubset {
+						c.Spec.DispatchPolicies[j].UpstreamSubset[x] = strings.Replace(c.Spec.DispatchPolicies[j].UpstreamSubset[x], "http://", "https://", 1)
+					}
 				}
 			}
 			cc := &c.Spec.ClientConfig
@@ -151,7 +153,7 @@ func mutate(t *rapid.T, c *proxyv1alpha1.UpstreamCluster) []string {
 				cc.BearerToken = []byte("tok")
 				cc.CertData, cc.KeyData = mats[1].CertPEM, mats[1].KeyPEM
 			}
-			edits = append(edits, fmt.Sprintf("https clientConfig{insecure=%v ca=%d cert=%d token=%d}", cc.Insecure, len(cc.CAData), len(cc.CertData), len(cc.BearerToken)))
+			edits = append(edits, fmt.Sprintf("%s clientConfig{insecure=%v ca=%d cert=%d token=%d}", map[bool]string{true: "http with leftover TLS", false: "https"}[k == 30], cc.Insecure, len(cc.CAData), len(cc.CertData), len(cc.BearerToken)))
 		case 27:
 			q := int32(rapid.IntRange(0, 5).Draw(t, l+".qps"))
 			c.Spec.ClientConfig.QPS, c.Spec.ClientConfig.Burst, c.Spec.ClientConfig.QPSDivisor = q, q+int32(rapid.IntRange(0, 2).Draw(t, l+".b")), int32(rapid.IntRange(0, 3).Draw(t, l+".d"))
